@@ -58,7 +58,7 @@ def run(ctx):
                'the cube format requires the parameter table in cube order (convolve_model_dir refuses otherwise)',
                'fits are compared with the numeric reference (C01/C02) per variant, which is what "agree" means up to the float32 memmap bound')
     ctx.require_events('file:checked', 'twin:compared', 'fit:checked')     # (the sort_to_match probe is an extra observation point, not a required route)
-    ctx.require_regimes('gz', 'subdir', 'mixed-order', 'cube:desc', 'cube:asc', 'f32', 'n_ap>1', 'n_ap=1', 'memmap:on', 'memmap:off', 'filters>1', 'filters-used-before', 'names:long', 'cube-unit:Jy', 'apertures:not-in-AU', 'fitters:several-alive')
+    ctx.require_regimes('gz', 'subdir', 'mixed-order', 'cube:desc', 'cube:asc', 'f32', 'n_ap>1', 'n_ap=1', 'memmap:on', 'memmap:off', 'filters>1', 'filters-used-before', 'names:long', 'cube-unit:Jy', 'apertures:not-in-AU', 'fitters:several-alive', 'cube:table-order-differs-from-cube')
     n_pkg = 7 if ctx.quick else 120
     for ip in range(n_pkg):
         n_m = int(rng.integers(1, 9))
@@ -136,6 +136,42 @@ def run(ctx):
             ctx.rmdir(dd)
         import copy as _copy
         filters_before = [_copy.deepcopy(f_) for f_ in filters]      # references are computed from the curves as handed over
+        if n_m >= 2 and ip % 3 == 1:
+            # a cube package whose parameter table lists the models in another order than the cube: it is either refused, or
+            # every row still holds the flux computed from the SED of the model it is labelled with
+            d3 = ctx.newdir('v2p_')
+            pkg.build_v2(d3, truth, descending_wav=cdesc, dtype='f4' if f32 else 'f8', unit=cunit)
+            for fn_ in os.listdir(d3):
+                if fn_.startswith('parameters.fits'):
+                    os.remove(os.path.join(d3, fn_))
+            perm3 = list(rng.permutation(n_m))
+            if perm3 == list(range(n_m)):
+                perm3 = perm3[::-1]
+            pkg.write_parameters(d3, [names[i] for i in perm3], {c_: np.asarray(v_)[perm3] for c_, v_ in truth.params.items()})
+            ctx.regime('cube:table-order-differs-from-cube')
+            try:
+                convolve_model_dir(d3, filters)
+                served = True
+            except Exception:
+                served = False
+                ctx.event('cube:table-order-differs:refused')
+            if served:
+                for flt in filters_before:
+                    ref_f, ref_e, R = convcheck.reference_convolution(truth, flt)
+                    try:
+                        g3 = convcheck.read_convolved_plain(os.path.join(d3, 'convolved', flt.name + '.fits'))
+                    except Exception:
+                        continue
+                    if sorted(g3['names']) != sorted(names):
+                        ctx.violation('row-holds-other-model:v2:permuted-table', 'a cube package with a permuted parameter table was convolved and the rows are not labelled with its models', dict(wit0, rows=g3['names']))
+                        break
+                    rows3 = [truth.index(n_) for n_ in g3['names']]
+                    tol3 = (1e-4 if f32 else 1e-9) * np.abs(ref_f[rows3]) + (1e-7 if f32 else 1e-12) * np.sum(np.abs(truth.flux[rows3][:, :, ::-1] * R), axis=2)
+                    if g3['flux'].shape != ref_f[rows3].shape or np.any(np.abs(g3['flux'] - ref_f[rows3]) > tol3):
+                        ctx.violation('row-holds-other-model:v2:permuted-table', 'a cube package whose parameter table is in another order than the cube was convolved, and a row does not hold the flux computed from the SED it is labelled with',
+                                      dict(wit0, table_order=[names[i] for i in perm3], rows=g3['names'], got=g3['flux'][0], expected=ref_f[rows3][0]))
+                        break
+            ctx.rmdir(d3)
         got = {}
         edge_tol = {}
         for style, d in (('v1', d1), ('v2', d2)):
